@@ -225,6 +225,8 @@ trait Ops {
     fn append(&mut self, d: &[u8]);
     fn io_write(&mut self, d: &[u8]) -> Option<Result<usize, ()>>;
     fn io_write_all(&mut self, d: &[u8]) -> Option<bool>;
+    /// io::Write::write_vectored over the given slices
+    fn io_write_vectored(&mut self, ds: &[Vec<u8>]) -> Option<Result<usize, ()>>;
     fn io_copy(&mut self, d: &[u8]) -> Option<Result<u64, ()>>;
     fn io_flush(&mut self) -> Option<bool>;
     fn h_write(&mut self, d: &[u8]);
@@ -322,6 +324,16 @@ macro_rules! ops_adapters {
             #[cfg(not(feature = "hw-std"))]
             None
         }
+        fn io_write_vectored(&mut self, _ds: &[Vec<u8>]) -> Option<Result<usize, ()>> {
+            #[cfg(feature = "hw-std")]
+            {
+                let t = self.get_mut();
+                let bufs: Vec<std::io::IoSlice<'_>> = _ds.iter().map(|d| std::io::IoSlice::new(d)).collect();
+                Some(lib(|| std::io::Write::write_vectored(t, &bufs)).map_err(|_| ()))
+            }
+            #[cfg(not(feature = "hw-std"))]
+            None
+        }
         fn io_write_all(&mut self, _d: &[u8]) -> Option<bool> {
             #[cfg(feature = "hw-std")]
             {
@@ -389,6 +401,9 @@ macro_rules! ops_adapters {
 macro_rules! ops_no_adapters {
     () => {
         fn io_write(&mut self, _d: &[u8]) -> Option<Result<usize, ()>> {
+            None
+        }
+        fn io_write_vectored(&mut self, _ds: &[Vec<u8>]) -> Option<Result<usize, ()>> {
             None
         }
         fn io_write_all(&mut self, _d: &[u8]) -> Option<bool> {
@@ -660,6 +675,19 @@ fn run_history(lines: &[&str], out: &mut String) {
                 let d = unhex(t[2]);
                 let h = regs.get_mut(&reg(1)).expect("script: absent register");
                 match with_data(place, &d, |s| h.io_write(s)) {
+                    Some(Ok(n)) => {
+                        let _ = writeln!(out, "W {}", n);
+                    }
+                    Some(Err(())) => out.push_str("WERR\n"),
+                    None => out.push_str("UNSUPPORTED\n"),
+                }
+                alloc_line(out);
+            }
+            "writev" => {
+                // writev <reg> <hex> <hex> ...   (the IoSlice vector itself is the harness's allocation, made before the call)
+                let ds: Vec<Vec<u8>> = t[2..].iter().map(|x| unhex(x)).collect();
+                let h = regs.get_mut(&reg(1)).expect("script: absent register");
+                match h.io_write_vectored(&ds) {
                     Some(Ok(n)) => {
                         let _ = writeln!(out, "W {}", n);
                     }
